@@ -69,3 +69,19 @@ Definition mdvd_write_cue (c : Z * Z * list str) : str :=
   123 :: mdvd_token (inject_Z s) ++ 125 :: 123 :: mdvd_token (inject_Z e) ++ 125 :: mdvd_content lines.
 
 Definition mdvd_write (cs : list (Z * Z * list str)) : str := flat_map mdvd_write_cue cs.
+
+(* ---- caption sets with several languages: DFXP and SAMI carry them (one <div> / one class each);
+   a hop converts every language on its own ------------------------------------------------------------ *)
+Definition capset : Type := list (str * list cue).
+Definition carries_languages (f : fmt) : bool := match f with FDfxp | FSami => true | _ => false end.
+
+Definition hop_set (f : fmt) (cs : capset) : result capset :=
+  if carries_languages f
+  then res_map (fun lc : str * list cue => do c <- hop f (snd lc); Ok (fst lc, c)) cs
+  else Err ENotImplemented.       (* SRT, WebVTT, MicroDVD files hold one language: outside *)
+
+Fixpoint run_model_set (chain : list fmt) (cs : capset) : result capset :=
+  match chain with
+  | [] => Ok cs
+  | f :: t => do cs' <- hop_set f cs; run_model_set t cs'
+  end.
